@@ -29,8 +29,12 @@ type File struct {
 	stat     StreamStat
 	closed   bool
 	// write side
-	real *os.File
-	cr   *Created
+	real     *os.File
+	cr       *Created
+	wplan    *WritePlan
+	written  int
+	wfired   bool
+	isStdout bool
 	// pass-through (no scenario)
 	pass *os.File
 }
@@ -39,7 +43,22 @@ var (
 	allStreams []*File
 	created    []*Created
 	stdinFile  *File
+	stdoutFile *File
 )
+
+// Stdout replaces os.Stdout where crd names it explicitly (the writer its
+// commands print results to). The bytes still go to the real descriptor 1;
+// the scenario may make the destination fail.
+func Stdout() *File {
+	if stdoutFile != nil {
+		return stdoutFile
+	}
+	stdoutFile = &File{name: "/dev/stdout", real: os.Stdout, isStdout: true}
+	if active {
+		stdoutFile.wplan = step.Stdout
+	}
+	return stdoutFile
+}
 
 func errnoOf(s string) syscall.Errno {
 	switch s {
@@ -226,6 +245,9 @@ func OpenFile(name string, flag int, perm os.FileMode) (*File, error) {
 	}
 	cr.Closed = false
 	out := &File{name: name, real: fp, cr: cr}
+	if fsp != nil {
+		out.wplan = fsp.WritePlan
+	}
 	if fsp != nil && fsp.Pipe {
 		out.isPipe = true
 		journal.Faults = append(journal.Faults, "create:FIFO:"+name)
@@ -346,8 +368,31 @@ func (f *File) Read(p []byte) (int, error) {
 }
 
 func (f *File) Write(p []byte) (int, error) {
+	if f.real != nil && f.closed {
+		return 0, &fs.PathError{Op: "write", Path: f.name, Err: fs.ErrClosed}
+	}
+	if f.real != nil && f.wplan != nil && f.wplan.ErrNo != "" {
+		room := f.wplan.ErrAfter - f.written
+		if room < 0 {
+			room = 0
+		}
+		if len(p) > room {
+			n := 0
+			if room > 0 {
+				n, _ = f.real.Write(p[:room])
+				f.written += n
+			}
+			if !f.wfired {
+				f.wfired = true
+				journal.Faults = append(journal.Faults, "write:"+f.wplan.ErrNo+":"+f.name)
+			}
+			return n, &fs.PathError{Op: "write", Path: f.name, Err: errnoOf(f.wplan.ErrNo)}
+		}
+	}
 	if f.real != nil {
-		return f.real.Write(p)
+		n, err := f.real.Write(p)
+		f.written += n
+		return n, err
 	}
 	return 0, &fs.PathError{Op: "write", Path: f.name, Err: syscall.EBADF}
 }
@@ -436,7 +481,12 @@ func (f *File) Seek(offset int64, whence int) (int64, error) {
 	return 0, &fs.PathError{Op: "seek", Path: f.name, Err: syscall.ESPIPE}
 }
 
-func (f *File) Fd() uintptr { return ^uintptr(0) }
+func (f *File) Fd() uintptr {
+	if f.isStdout {
+		return 1
+	}
+	return ^uintptr(0)
+}
 
 type fileInfo struct {
 	name    string
